@@ -11,14 +11,10 @@ CONSTANTS
   MaxQueries = 2
   BetweenOn = TRUE
   AnnotLevel = 1
-  UnsortedQueries = TRUE
+  UnsortedQueries = FALSE
   TrackHist = FALSE
-  Variant = "design"
+  Variant = "impl"
 INVARIANT Inv_C16_At
 INVARIANT Inv_C16_Between
 INVARIANT Inv_C16_Annotate
-INVARIANT Inv_D_MemoFresh
-INVARIANT Inv_D_MemoEmptyWhenUnsorted
-INVARIANT Inv_D_IndexFresh
-INVARIANT Inv_D_MemoBound
 CHECK_DEADLOCK FALSE
